@@ -489,10 +489,16 @@ pub fn drive<P: PT>(seed: u64, runs: usize, events: usize, prof: &Profile, out: 
             if prof.with_set && !on_b {
                 // the same call on a PrefixSet must behave like the map with unit values
                 if let Some(os) = apply::<P, PrefixSet<P>>(&mut sset, &ev, &ctx) {
+                    // (results, contents and length; the set's shape and arena are judged by the set's own
+                    // table and trace jobs, not by likeness to the map)
+                    let keys_of = |t: &Value| -> Vec<Value> {
+                        let mut es = vec![];
+                        crate::replay::tree_entries(t, &mut es);
+                        es.into_iter().map(|e| json!([e[0], e[1]])).collect()
+                    };
                     let same = os.ret == o.ret && os.pan == o.pan
-                        && Coll::<P>::tree(&sset, &ctx) == Coll::<P>::tree(&*target, &ctx)
-                        && Coll::<P>::len(&sset) == target.len()
-                        && acct(&sset.verif_snapshot()) == acct(&target.verif_snapshot());
+                        && keys_of(&Coll::<P>::tree(&sset, &ctx)) == keys_of(&Coll::<P>::tree(&*target, &ctx))
+                        && Coll::<P>::len(&sset) == target.len();
                     if !same {
                         o = Outcome { ret: json!(["SET-DIFFERS", os.ret, o.ret]), pan: o.pan };
                     }
